@@ -1248,6 +1248,12 @@ class WriteTool(BaseTool):
 
             # Field names must be names the reader takes back as one key
             unwritable = [k for k in changes if not isinstance(k, str) or not self._is_writable_key(k)]
+            # ... and so must the field names inside a {"META": {...}} request
+            meta_request = changes.get("META")
+            if isinstance(meta_request, dict) and not _is_delete_sentinel(meta_request):
+                unwritable += [
+                    f"META.{k}" for k in meta_request if not isinstance(k, str) or not self._is_writable_key(k)
+                ]
             if unwritable:
                 return self._error_envelope(
                     target_path,
